@@ -21,6 +21,7 @@ import (
 	"github.com/DrmagicE/gmqtt/server"
 
 	"verifharness/internal/drv"
+	"verifharness/internal/memnet"
 	"verifharness/internal/mqttcli"
 	"verifharness/internal/wire"
 )
@@ -93,6 +94,8 @@ func (d *brokerDrv) newBroker(m map[string]string) string {
 	cfg.API = config.API{}
 	cfg.Log.Level = "error"
 
+	// wdelay=<ms>: the broker's socket writes return that much after the peer has seen the bytes (see memnet)
+	memnet.SetWriteReturnDelay(time.Duration(geti(m, "wdelay", 0)) * time.Millisecond)
 	q := &cfg.MQTT
 	if v, ok := m["mode"]; ok {
 		q.DeliveryMode = v
